@@ -257,3 +257,107 @@ func init() {
 			return fmt.Sprint(recSummary(), nTime, nStr, nFld, nGen), v, 1
 		})
 }
+
+// ---------------------------------------------------------------------------------------------
+// The hook's time appears in the record - for every event of a SEQUENCE whose hook answers differ:
+// the same instant seen from three zones, the next millisecond / second, a clock that steps back, the
+// zero instant. Every sequence of 1-3 answers over that alphabet, through the built-in logger and
+// configured console appenders with the text and the JSON layout, and as recorded by an appender.
+// Accepted renderings of an instant: its wall-clock reading in the zone the hook returned it in, in UTC
+// or in the process's local zone (a layout may normalise the zone; it may not print another instant).
+// ---------------------------------------------------------------------------------------------
+
+type c10SeqCase struct {
+	Path  string `json:"path"` // builtin | text | json | rec
+	Times []int  `json:"hook_answers"`
+}
+
+func init() {
+	east, west := time.FixedZone("E8", 8*3600), time.FixedZone("W530", -(5*3600+1800))
+	base := time.Date(2025, 6, 1, 22, 30, 15, 250_000_000, time.UTC)
+	answers := []time.Time{base, base.In(east), base.In(west), base.Add(time.Millisecond).In(east), base.Add(time.Second), base.Add(-time.Hour).In(west), {}}
+	definePart("C10", "c10/hook-time-sequences", "qt", fmt.Sprintf("every sequence of 1-3 time-hook answers over %d instants/zones x 4 paths (built-in logger, text layout, JSON layout, recording appender)", len(answers)),
+		func(tier string, yield func(c10SeqCase)) {
+			for _, p := range []string{"builtin", "text", "json", "rec"} {
+				var rec func(cur []int)
+				rec = func(cur []int) {
+					if len(cur) > 0 {
+						yield(c10SeqCase{p, append([]int(nil), cur...)})
+					}
+					if len(cur) == 3 {
+						return
+					}
+					for i := range answers {
+						rec(append(cur, i))
+					}
+				}
+				rec(nil)
+			}
+		},
+		func(c c10SeqCase) (string, []Violation, int) {
+			confReset()
+			key := fmt.Sprintf("path=%s answers=%v", c.Path, c.Times)
+			switch c.Path {
+			case "text", "json":
+				conf := map[string]string{"appender.c.type": "Console", "logger.root.type": "Logger", "logger.root.appenderRef.ref": "c"}
+				conf["appender.c.layout.type"] = map[string]string{"text": "TextLayout", "json": "JSONLayout"}[c.Path]
+				if err, pn := safeRefresh(conf); err != nil || pn != nil {
+					return "refresh-failed", []Violation{{Clause: "valid-config-rejected", Key: key, Detail: fmt.Sprintf("err=%v panic=%v", err, pn)}}, 1
+				}
+			case "rec":
+				conf := map[string]string{"appender.r0.type": "Rec", "logger.root.type": "Logger", "logger.root.appenderRef.ref": "r0"}
+				if err, pn := safeRefresh(conf); err != nil || pn != nil {
+					return "refresh-failed", []Violation{{Clause: "valid-config-rejected", Key: key, Detail: fmt.Sprintf("err=%v panic=%v", err, pn)}}, 1
+				}
+			}
+			k := 0
+			log.TimeNow = func(context.Context) time.Time { t := answers[c.Times[k]]; return t }
+			for k = range c.Times {
+				log.Info(context.Background(), tagC01, log.Msg(fmt.Sprintf("seq-%d", k)))
+			}
+			log.TimeNow = nil
+			log.Destroy()
+			var v []Violation
+			if c.Path == "rec" {
+				items := recStore["r0"]
+				if len(items) != len(c.Times) {
+					return recSummary(), []Violation{{Clause: "emission", Key: key, Detail: fmt.Sprintf("%d events recorded, %d logged", len(items), len(c.Times))}}, len(c.Times)
+				}
+				for i, it := range items {
+					if !it.Event.Time.Equal(answers[c.Times[i]]) {
+						v = append(v, Violation{Clause: "record-time", Key: key, Detail: fmt.Sprintf("event %d: time %v, the hook returned %v", i, it.Event.Time, answers[c.Times[i]])})
+					}
+				}
+				return recSummary(), v, len(c.Times)
+			}
+			out := consoleBuf.String()
+			lines := strings.Split(strings.TrimSuffix(out, "\n"), "\n")
+			if len(lines) != len(c.Times) {
+				return out, []Violation{{Clause: "emission", Key: key, Detail: fmt.Sprintf("%d lines for %d events: %q", len(lines), len(c.Times), out)}}, len(c.Times)
+			}
+			for i, l := range lines {
+				stamp := ""
+				if c.Path == "json" {
+					if j := strings.Index(l, `"time":"`); j >= 0 {
+						stamp = l[j+8:]
+						if e := strings.IndexByte(stamp, '"'); e >= 0 {
+							stamp = stamp[:e]
+						}
+					}
+				} else if j := strings.Index(l, "]["); j >= 0 {
+					stamp = l[j+2:]
+					if e := strings.IndexByte(stamp, ']'); e >= 0 {
+						stamp = stamp[:e]
+					}
+				}
+				t := answers[c.Times[i]]
+				const f = "2006-01-02T15:04:05.000"
+				if !strings.Contains(l, fmt.Sprintf("seq-%d", i)) {
+					v = append(v, Violation{Clause: "record-order", Key: key, Detail: fmt.Sprintf("line %d is %q", i, l)})
+				} else if stamp != t.Format(f) && stamp != t.UTC().Format(f) && stamp != t.Local().Format(f) {
+					v = append(v, Violation{Clause: "record-time", Key: key, Detail: fmt.Sprintf("event %d: the hook returned %s (zone %s), the record carries %q: %q", i, t.Format(f), t.Location(), stamp, l)})
+				}
+			}
+			return out, v, len(c.Times)
+		})
+}
